@@ -19,7 +19,9 @@ individual case -- and (b) judged by the extracted model/oracle on every 7th cod
 point (phase from the seed) and on all range boundaries +-2.
 Thorough tier: the extracted model and oracle run on every code point as well.
 
-Model = code with /verif/findings/D11_high_surrogate_range.patch applied."""
+Model = code with /verif/findings/D11_high_surrogate_range.patch and
+D92_lone_high_surrogate_swallows_quote.patch applied (a high surrogate joins only with a
+following \\u / \\U escape; otherwise the parse fails)."""
 import json
 import os
 import random
@@ -91,6 +93,35 @@ def plain_units(rng, w, n):
         if u in (34, 92, 10, 9, 13, 0):
             continue
         out.append(u)
+    return out
+
+
+def raw_surrogate_cases(rng, n):
+    """T cases (model / implementation agreement, outside the property): a high surrogate escape
+    followed by 0..8 ordinary units or by another kind of escape (parse fails since D92), by
+    \\u / \\U and four arbitrary units (still taken as a pair, the value of the low half is not
+    checked), or standing at the end of the text"""
+    out = []
+    for _ in range(n):
+        w = rng.choice(WIDTHS)
+        hi = rng.randrange(0xD800, 0xDC00)
+        esc = [92, rng.choice([117, 117, 85])] + [ord(c) for c in (rng.choice(["%04x", "%04X"]) % hi)]
+        kind = rng.randrange(5)
+        if kind == 0:
+            tail = plain_units(rng, w, rng.randrange(0, 9))
+        elif kind == 1:
+            tail = [92, rng.choice([110, 114, 116, 98, 102, 47, 92, 34])] + plain_units(rng, w, rng.randrange(0, 7))
+        elif kind == 2:
+            four = [rng.choice([48, 57, 65, 70, 97, 102, 71, 103, 32, 45] + plain_units(rng, w, 3)) for _ in range(4)]
+            tail = [92, rng.choice([117, 85])] + four + plain_units(rng, w, rng.randrange(0, 4))
+        elif kind == 3:
+            tail = []
+        else:
+            # one or two units short of a second escape, or u/U without the backslash
+            tail = rng.choice([[92], [117], [85, 100, 99, 48, 48], [92, 117], [92, 117, 100], [92, 117, 100, 99, 48],
+                               [47, 117, 100, 99, 48, 48], [92, 120, 100, 99, 48, 48]])
+        pre = plain_units(rng, w, rng.randrange(0, 3))
+        out.append("T %d %s" % (w, fmt_list(pre + esc + tail)))
     return out
 
 
@@ -227,6 +258,9 @@ def check(tier):
         singles.append("J %d %d %d %d %s %s" % (w, rng.randrange(32), rng.randrange(32), cp,
                                                 fmt_list(plain_units(rng, w, rng.randrange(0, 5))),
                                                 fmt_list(plain_units(rng, w, rng.randrange(0, 5)))))
+    raw = raw_surrogate_cases(rng, 400 if tier == "quick" else 6000)
+    dist["raw_lone_high_surrogate_cases"] = len(raw)
+    singles += raw
     dist["single_cases"] = len(singles)
     dist["suspects_from_exhaustive_cpp"] = len(suspects)
     allc = d_lines + singles + suspects
@@ -312,7 +346,7 @@ def check(tier):
         "the theorems are about coq/UniModel.v; the C++ is tied by gen/Tables_uni.v and by the differential run reported here (exhaustive on the property's finite domain on the C++ side)",
         "character widths: char, char16_t, char32_t on LP64 little-endian (wchar_t uses the 4-byte code path)",
         "lone or reversed surrogates and malformed escapes are outside the property (corpus cases check model/implementation agreement only)",
-        "the model describes /repo with findings/D11_high_surrogate_range.patch applied",
+        "the model describes /repo with findings/D11_high_surrogate_range.patch and D92_lone_high_surrogate_swallows_quote.patch applied",
     ]
     return rep.finish()
 
